@@ -4,7 +4,7 @@ from lexlib import *
 ID = "C12"
 COQ_FILES = COQ_LEX + ["Props/C12.v"]
 PROPS = "Props/C12.v"
-THEOREMS = ["C12_lex_total", "C12_lex_error_positions"]
+THEOREMS = ["C12_lex_total", "C12_lex_error_positions", "C12_lex_item_positions"]
 AXIOMS_OK = []
 TRUSTED = TRUSTED_LEX
 ASSUMPTIONS = ["P-core: totality and error positions are proved for the lexer model; the goyacc-generated LALR automaton, its error "
